@@ -16,6 +16,10 @@ func TestDerive(t *testing.T) {
 	gomspec.DeriveCheck(t, "derive/recursive-plain", kit.Pick(2, 50), "recursive-plain")
 }
 
+func TestPrecedence(t *testing.T) {
+	gomspec.PrecedenceCheck(t, "derive/precedence-two-packages", kit.Pick(1, 24))
+}
+
 func TestKnown(t *testing.T) {
 	gomspec.KnownD16Check(t)
 }
